@@ -47,7 +47,17 @@ def interaction_run(fn, nb, seedcomp=None, bead_arg=None, decide=None, opaque=()
             vecs[key] = m
         v = vecs[key]
         return v.copy() if (i, j) == key else -v
-    cb = {'getDist': getDist, 'opaque': set(opaque)}
+    def opaque_value(name, v):
+        """generalise the plane normals u_ab x u_bc of consecutive connection vectors (by VALUE, whatever the local is called) to arbitrary vectors n1, n2 with their exact tangents"""
+        if not opaque or not isinstance(v, Mx) or v.r * v.c != 3 or v.base is not None:
+            return None
+        keys = sorted(vecs)
+        for idx, (ka, kb) in enumerate(zip(keys, keys[1:])):
+            c = vecs[ka].cross(vecs[kb])
+            if all(rvc.nf_zero(v.g(i).v - c.g(i).v) for i in range(3)):
+                return opaque_vec(v, 'n%d' % (idx + 1))
+        return None
+    cb = {'getDist': getDist, 'opaque_value': opaque_value}
     if decide:
         cb['decide'] = decide
     this = {'beads_': list(range(nb))}
